@@ -1270,6 +1270,19 @@ impl NormalAttribute {
                 w.expr_stmt(|w| {
                     write!(w, "if(C||K||")?;
                     p.lvalue_state_expr(w, scopes, false)?;
+                    if is_model && p.has_model_lvalue_path(scopes) {
+                        // the l-value path of a loop item contains the item index:
+                        // refresh it when a loop index changes even if the item does not
+                        for (i, scope) in scopes.iter().enumerate() {
+                            if let ScopeVarLvaluePath::Var { .. } = scope.lvalue_path {
+                                if let Some(tree) =
+                                    scopes.get(i + 1).and_then(|x| x.update_path_tree.as_ref())
+                                {
+                                    write!(w, "||{}", tree)?;
+                                }
+                            }
+                        }
+                    }
                     write!(w, ")O(N,{},", attr_name)?;
                     p.value_expr(w)?;
                     if is_model {
